@@ -50,7 +50,8 @@ def gen(rng):
     if rng.random() < 0.55:
         sizes = rng.choice([["tiny"], ["k8", "tiny"], ["k64", "k8"], ["k256", "k64", "tiny"]])
         wm = world.gen_world_model(rng, use_cache=rng.choice([False, None, True]), nfiles=rng.randrange(1, 4), sizes=sizes,
-                                   p_have=0.4, max_stmts=5, min_missing=1, crlf_p=0.25)
+                                   p_have=0.4, max_stmts=5, min_missing=1, crlf_p=0.25,
+                                   unicode_p=rng.choice([0.0, 0.0, 0.3, 0.9]))
         if "k256" in sizes:
             tags.add("large_file_256k")
         if any("\r\n" in s[-1] for segs in wm["files"].values() for s in segs):
